@@ -149,6 +149,8 @@ pub fn run_scenario(sc: &Scenario, workdir: &str, shim: &str, copia: &str) -> Ru
     let mut mutated_since_read = vec![false; n];
     let mut chunking: Vec<Vec<Vec<usize>>> = sc.progs.iter().map(|p| p.iter().map(|_| vec![]).collect()).collect();
     let mut events: Vec<String> = vec![];
+    let mut inv_at: Vec<Vec<usize>> = vec![vec![]; n];
+    let mut resp_at: Vec<Vec<usize>> = vec![vec![]; n];
     let mut snaps: Vec<String> = vec![];
     let mut real_steps = 0usize;
     let mut pol_src = sc.policy.clone().into_iter();
@@ -232,6 +234,7 @@ pub fn run_scenario(sc: &Scenario, workdir: &str, shim: &str, copia: &str) -> Ru
                         if rs.len() > sent_count[i] {
                             sent_count[i] = rs.len();
                             in_flight[i] = false;
+                            resp_at[i].push(events.len());
                             break;
                         }
                         if t0.elapsed() > std::time::Duration::from_millis(300) {
@@ -257,6 +260,7 @@ pub fn run_scenario(sc: &Scenario, workdir: &str, shim: &str, copia: &str) -> Ru
                     }
                     in_flight[i] = true;
                     next_req[i] += 1;
+                    inv_at[i].push(events.len());
                 }
                 // input still empty: either the program is over or the server wants bytes the client never sends -> EOF
             }
@@ -332,6 +336,7 @@ pub fn run_scenario(sc: &Scenario, workdir: &str, shim: &str, copia: &str) -> Ru
         rline.push_str(&format!("R{}={} ", i, if rs.is_empty() { "-".to_string() } else { rs.join(",") }));
     }
     let final_tree = tree_string(&root);
+    let ctl_out: Vec<Vec<u8>> = ids.iter().map(|id| ctl.output(id)).collect();
     ctl.shutdown();
     // ---- property oracles on the implementation (C10): every live content is initial or one verified Put's complete body
     let mut good: Vec<Vec<u8>> = sc.init.iter().map(|(_, c)| c.clone()).collect();
@@ -359,6 +364,24 @@ pub fn run_scenario(sc: &Scenario, workdir: &str, shim: &str, copia: &str) -> Ru
     }
     if rline.contains("HASHBAD") || rline.contains("SHORT") {
         fails.push(format!("{} C10 a Get streamed bytes that do not match the length/hash it announced: {}", sc.id, rline));
+    }
+    // ---- C03 search oracle: is the observed history linearizable w.r.t. the CAS map?
+    {
+        let mut ops: Vec<LinOp> = vec![];
+        for (i, id) in ids.iter().enumerate() {
+            let (rs, _) = parse_replies(&ctl_out[i]);
+            let rs: Vec<String> = rs.iter().skip(1).map(|r| canon(r).replace("Error:content_hash_mismatch", "Error:mismatch").replace("Error:content_length_mismatch", "Error:mismatch")).collect();
+            let _ = id;
+            for (k, inv) in inv_at[i].iter().enumerate() {
+                let reply = rs.get(k).cloned();
+                let resp = if reply.is_some() { resp_at[i].get(k).copied().unwrap_or(usize::MAX) } else { usize::MAX };
+                ops.push(LinOp { req: sc.progs[i][k].clone(), reply, inv: *inv, resp });
+            }
+        }
+        let init_map: BTreeMap<String, Vec<u8>> = sc.init.iter().cloned().collect();
+        if ops.len() <= 7 && !linearizable(&init_map, &ops, &final_tree) {
+            fails.push(format!("{} C03 observed history is not linearizable w.r.t. the compare-and-swap map: {}F={}", sc.id, rline, final_tree));
+        }
     }
     // ---- case line for the model
     let mut table: BTreeMap<Vec<u8>, String> = BTreeMap::new();
@@ -398,6 +421,98 @@ pub fn run_scenario(sc: &Scenario, workdir: &str, shim: &str, copia: &str) -> Ru
     RunResult { case_line, impl_line, fails, estep_count: events.len(), real_steps }
 }
 
+
+
+// ---------------- brute-force linearizability checker (search oracle for C03) ----------------
+#[derive(Clone)]
+pub struct LinOp {
+    pub req: Req,
+    pub reply: Option<String>,
+    pub inv: usize,
+    pub resp: usize,
+}
+
+fn hstr(c: &Option<Vec<u8>>) -> String {
+    match c {
+        Some(c) => format!("h{}", hex(c)),
+        None => "none".into(),
+    }
+}
+
+/// sequential CAS-map semantics; returns the canonical reply
+fn spec_apply(m: &mut BTreeMap<String, Vec<u8>>, r: &Req) -> String {
+    match r {
+        Req::Put { path, exp, decl, len, pieces } => {
+            let body = pieces.concat();
+            if h32(&body) != h32(decl) || body.len() as u64 != *len {
+                return "Error:mismatch".into();
+            }
+            let cur = m.get(path).cloned();
+            if cur.as_ref().map(|c| h32(c)) == exp.as_ref().map(|c| h32(c)) {
+                m.insert(path.clone(), body);
+                format!("PutResult:true:h{}", hex(decl))
+            } else {
+                m.insert(format!("{}.conflict-{}", path, hex(&h32(decl)[..6])), body);
+                format!("PutResult:false:{}", hstr(&cur))
+            }
+        }
+        Req::Del { path, exp } => {
+            let cur = m.get(path).cloned();
+            if cur.as_ref().map(|c| h32(c)) == exp.as_ref().map(|c| h32(c)) {
+                m.remove(path);
+                "DeleteResult:true:none".into()
+            } else {
+                format!("DeleteResult:false:{}", hstr(&cur))
+            }
+        }
+        Req::Get { path } => match m.get(path) {
+            Some(c) => format!("Content:{}:h{}:HASHOK:{}", c.len(), hex(c), hex(c)),
+            None => "Error:not_found".into(),
+        },
+    }
+}
+
+fn tree_of(m: &BTreeMap<String, Vec<u8>>) -> String {
+    let mut v: Vec<(String, String)> = m.iter().map(|(p, c)| (p.clone(), format!("{}={}", hex(p.as_bytes()), hex(c)))).collect();
+    v.sort();
+    if v.is_empty() { "-".into() } else { v.into_iter().map(|x| x.1).collect::<Vec<_>>().join(",") }
+}
+
+pub fn linearizable(init: &BTreeMap<String, Vec<u8>>, ops: &[LinOp], final_tree: &str) -> bool {
+    fn go(m: &BTreeMap<String, Vec<u8>>, ops: &[LinOp], done: &mut Vec<bool>, final_tree: &str) -> bool {
+        // all completed ops placed?  (pending ops may stay out)
+        if ops.iter().enumerate().all(|(k, o)| done[k] || o.reply.is_none()) && tree_of(m) == final_tree {
+            return true;
+        }
+        for k in 0..ops.len() {
+            if done[k] {
+                continue;
+            }
+            // real-time: no undone completed op may have responded before this one was invoked
+            if ops.iter().enumerate().any(|(j, o)| !done[j] && j != k && o.reply.is_some() && o.resp < ops[k].inv) {
+                continue;
+            }
+            let mut m2 = m.clone();
+            let rp = spec_apply(&mut m2, &ops[k].req);
+            if let Some(obs) = &ops[k].reply {
+                if obs.starts_with("Error:commit_failed") || obs.starts_with("Error:conflict-copy_failed") {
+                    // an honestly reported failed rename (file/directory clash): the operation had no effect
+                    m2 = m.clone();
+                } else if *obs != rp {
+                    continue;
+                }
+            }
+            done[k] = true;
+            if go(&m2, ops, done, final_tree) {
+                return true;
+            }
+            done[k] = false;
+        }
+        false
+    }
+    let mut done = vec![false; ops.len()];
+    go(init, ops, &mut done, final_tree)
+}
 
 // ---------------- scenario (de)serialisation: `<id> I=.. P0=.. P1=.. Y=<proc>[k],...` ----------------
 pub fn fmt_scenario(sc: &Scenario) -> String {
@@ -539,6 +654,17 @@ pub fn gen_scenarios(seed: u64, tier: &str) -> Vec<Scenario> {
     out
 }
 
+/// a path of the scenario is a proper directory prefix of another one (outside the flat-name model)
+pub fn dir_clash(sc: &Scenario) -> bool {
+    let mut all: Vec<String> = sc.init.iter().map(|(p, _)| p.clone()).collect();
+    for pr in &sc.progs {
+        for r in pr {
+            all.push(match r { Req::Put { path, .. } | Req::Del { path, .. } | Req::Get { path } => path.clone() });
+        }
+    }
+    all.iter().any(|p| all.iter().any(|q| q.starts_with(&format!("{}/", p))))
+}
+
 pub fn main(a: Args) -> i32 {
     let mut out = Out::new(&a.out);
     let copia = a.rest.iter().position(|x| x == "--copia").map(|i| a.rest[i + 1].clone()).expect("--copia");
@@ -554,8 +680,12 @@ pub fn main(a: Args) -> i32 {
     for sc in &scs {
         let r = run_scenario(sc, &work, &shim, &copia);
         out.line("scen.txt", &fmt_scenario(sc));
-        out.line("cases.txt", &r.case_line);
-        out.line("impl.txt", &r.impl_line);
+        if dir_clash(sc) {
+            out.count("dir_clash_scenarios_oracle_only");
+        } else {
+            out.line("cases.txt", &r.case_line);
+            out.line("impl.txt", &r.impl_line);
+        }
         out.count("scenarios");
         out.count(&format!("class_{}", sc.class));
         out.add("essential_steps", r.estep_count as u64);
